@@ -136,6 +136,27 @@ static inline qthread_shepherd_id_t qarray_internal_shepof_ch(const qarray *a,
     }
 }                                      /*}}} */
 
+/* FIXED_FIELDS only: the contiguous range of indices [*first, *end) whose segments
+ * belong to shepherd shep (the first `extras` shepherds own one segment more) */
+static QINLINE void qarray_internal_fields_region(const qarray               *a,
+                                                   const qthread_shepherd_id_t shep,
+                                                   size_t                     *first,
+                                                   size_t                     *end)
+{                                      /*{{{ */
+    const size_t extras        = a->dist_specific.stripes.extras;
+    const size_t segs_per_shep = a->dist_specific.stripes.segs_per_shep;
+    size_t       segs_on_shep  = segs_per_shep;
+
+    if (shep < extras) {
+        *first = shep * a->segment_size * (segs_per_shep + 1);
+        segs_on_shep++;
+    } else {
+        *first = (extras * a->segment_size * (segs_per_shep + 1)) +
+                 ((shep - extras) * a->segment_size * segs_per_shep);
+    }
+    *end = *first + (a->segment_size * segs_on_shep);
+}                                      /*}}} */
+
 static void qarray_free_cdt(void)
 {                                      /*{{{ */
     if (chunk_distribution_tracker != NULL) {
@@ -646,32 +667,17 @@ static aligned_t qarray_strider(const struct qarray_func_wrapper_args *arg)
             if ((shep < start_shep) || (shep > stop_shep)) {
                 goto qarray_strider_exit;
             }
-            if (shep != start_shep) {
-                /* count isn't *my* starting point, but I am within the
-                 * range of interest, so find my starting point. */
-                size_t extras        = arg->a->dist_specific.stripes.extras;
-                size_t segs_per_shep =
-                    arg->a->dist_specific.stripes.segs_per_shep;
-                /* this relies on sheps being zero-indexed */
-                if (shep < extras) {
-                    count = shep * segment_size * (segs_per_shep + 1);
-                } else {
-                    count =
-                        (extras * segment_size * (segs_per_shep + 1)) +
-                        ((shep - extras) * segment_size * segs_per_shep);
-                }
-            }
             {
-                size_t segs_on_this_shep =
-                    arg->a->dist_specific.stripes.segs_per_shep;
-                size_t last_count_on_this_shep;
-                if (shep < arg->a->dist_specific.stripes.extras) {
-                    segs_on_this_shep++;
+                size_t region_first, region_end;
+
+                qarray_internal_fields_region(arg->a, shep, &region_first, &region_end);
+                if (shep != start_shep) {
+                    /* count isn't *my* starting point, but I am within the
+                     * range of interest, so start where my segments start */
+                    count = region_first;
                 }
-                last_count_on_this_shep =
-                    count + ((segment_size * segs_on_this_shep) - 1);
-                if (max_count > last_count_on_this_shep) {
-                    max_count = last_count_on_this_shep + 1;
+                if (max_count > region_end) {
+                    max_count = region_end;
                 }
             }
             break;
@@ -698,9 +704,11 @@ static aligned_t qarray_strider(const struct qarray_func_wrapper_args *arg)
      */
     while (1) {
         size_t       inpage_offset;
+        /* count may start inside a segment: never run past the end of it */
+        const size_t seg_left   = segment_size - (count % segment_size);
         const size_t max_offset =
             ((max_count - count) >
-             segment_size) ? segment_size : (max_count - count);
+             seg_left) ? seg_left : (max_count - count);
 
         for (inpage_offset = 0; inpage_offset < max_offset; inpage_offset++) {
             void *ptr = qarray_elem_nomigrate(arg->a, count + inpage_offset);
@@ -708,6 +716,7 @@ static aligned_t qarray_strider(const struct qarray_func_wrapper_args *arg)
             assert(ptr != NULL);       // aka internal error
             arg->func.qt(ptr);
         }
+        count -= count % segment_size; /* step from the start of this segment */
         switch (dist_type) {
             case FIXED_FIELDS:
             case ALL_SAME:
@@ -764,21 +773,17 @@ static aligned_t qarray_loop_strider(const struct qarray_func_wrapper_args *arg)
             if ((shep < start_shep) || (shep > stop_shep)) {
                 goto qarray_loop_strider_exit;
             }
-            if (shep != start_shep) {
-                /* count isn't *my* starting point, but I am within the
-                 * range of interest, so find my starting point. */
-                /* this relies on sheps being zero-indexed */
-                count =
-                    shep * segment_size *
-                    arg->a->dist_specific.stripes.segs_per_shep;
-            }
             {
-                size_t last_count_on_my_shep =
-                    ((shep +
-                      1) * segment_size *
-                     arg->a->dist_specific.stripes.segs_per_shep) - 1;
-                if (max_count > last_count_on_my_shep) {
-                    max_count = last_count_on_my_shep;
+                size_t region_first, region_end;
+
+                qarray_internal_fields_region(arg->a, shep, &region_first, &region_end);
+                if (shep != start_shep) {
+                    /* count isn't *my* starting point, but I am within the
+                     * range of interest, so start where my segments start */
+                    count = region_first;
+                }
+                if (max_count > region_end) {
+                    max_count = region_end;
                 }
             }
             break;
@@ -815,11 +820,14 @@ static aligned_t qarray_loop_strider(const struct qarray_func_wrapper_args *arg)
     }
     while (1) {
         {
+            /* count may start inside a segment: never run past the end of it */
+            const size_t seg_left   = segment_size - (count % segment_size);
             const size_t max_offset =
                 ((max_count - count) >
-                 segment_size) ? segment_size : (max_count - count);
+                 seg_left) ? seg_left : (max_count - count);
             ql(count, count + max_offset, arg->a, arg->arg);
         }
+        count -= count % segment_size; /* step from the start of this segment */
         switch (dist_type) {
             default:
                 QTHREAD_TRAP();
@@ -876,21 +884,17 @@ static aligned_t qarray_loopaccum_strider(const struct qarray_accumfunc_wrapper_
             if ((shep < start_shep) || (shep > stop_shep)) {
                 goto qarray_loop_strider_exit;
             }
-            if (shep != start_shep) {
-                /* count isn't *my* starting point, but I am within the
-                 * range of interest, so find my starting point. */
-                /* this relies on sheps being zero-indexed */
-                count =
-                    shep * segment_size *
-                    arg->a->dist_specific.stripes.segs_per_shep;
-            }
             {
-                size_t last_count_on_my_shep =
-                    ((shep +
-                      1) * segment_size *
-                     arg->a->dist_specific.stripes.segs_per_shep) - 1;
-                if (max_count > last_count_on_my_shep) {
-                    max_count = last_count_on_my_shep;
+                size_t region_first, region_end;
+
+                qarray_internal_fields_region(arg->a, shep, &region_first, &region_end);
+                if (shep != start_shep) {
+                    /* count isn't *my* starting point, but I am within the
+                     * range of interest, so start where my segments start */
+                    count = region_first;
+                }
+                if (max_count > region_end) {
+                    max_count = region_end;
                 }
             }
             break;
@@ -929,9 +933,11 @@ static aligned_t qarray_loopaccum_strider(const struct qarray_accumfunc_wrapper_
     assert(tmpret);
     while (1) {
         {
+            /* count may start inside a segment: never run past the end of it */
+            const size_t seg_left   = segment_size - (count % segment_size);
             const size_t max_offset =
                 ((max_count - count) >
-                 segment_size) ? segment_size : (max_count - count);
+                 seg_left) ? seg_left : (max_count - count);
             if (first) {
                 ql(count, count + max_offset, arg->a, arg->arg, myret);
                 first = 0;
@@ -940,6 +946,7 @@ static aligned_t qarray_loopaccum_strider(const struct qarray_accumfunc_wrapper_
                 acc(myret, tmpret);
             }
         }
+        count -= count % segment_size; /* step from the start of this segment */
         switch (dist_type) {
             default:
                 /* This should never happen, so deliberately cause a seg fault
@@ -1015,7 +1022,7 @@ void qarray_iter(qarray      *a,
              * ranges, we essentially parallelize the task of figuring out
              * which threads to spawn (bizarre way of thinking about it, I
              * know). */
-            if (stopat - startat < a->segment_size) {
+            if ((startat / a->segment_size) == ((stopat - 1) / a->segment_size)) {
                 qthread_fork_to((qthread_f)qarray_strider, &qfwa, NULL,
                                 qarray_shepof(a, startat));
                 while (donecount == 0) {
@@ -1081,7 +1088,7 @@ void qarray_iter_loop(qarray      *a,
              * ranges, we essentially parallelize the task of figuring out
              * which threads to spawn (bizarre way of thinking about it, I
              * know). */
-            if (stopat - startat < a->segment_size) {
+            if ((startat / a->segment_size) == ((stopat - 1) / a->segment_size)) {
                 qthread_fork_to((qthread_f)qarray_loop_strider, &qfwa, NULL,
                                 qarray_shepof(a, startat));
                 while (donecount == 0) {
@@ -1180,7 +1187,7 @@ void qarray_iter_constloop(const qarray *a,
              * ranges, we essentially parallelize the task of figuring out
              * which threads to spawn (bizarre way of thinking about it, I
              * know). */
-            if (stopat - startat < a->segment_size) {
+            if ((startat / a->segment_size) == ((stopat - 1) / a->segment_size)) {
                 qthread_fork_to((qthread_f)qarray_loop_strider, &qfwa, NULL,
                                 qarray_shepof(a, startat));
                 while (donecount == 0) {
